@@ -177,7 +177,7 @@ class Prop(PropBase):
                 out["lazy_err"] = err_name(e)
         out["meta_same"] = bool(type(y) is type(z) and y.sample_rate == z.sample_rate and y.sample_shape == z.sample_shape
                                 and np.array_equal(y.channel_freqs.value, z.channel_freqs.value)
-                                and y.freq_align == z.freq_align and y.dtype == z.dtype)
+                                and y.freq_align == z.freq_align and sigs.same_dtype(y.dtype, z.dtype))
         if z.start_time is None:
             out["start"] = None if y.start_time is None else "acquired"
         else:
